@@ -61,6 +61,11 @@ def scenarios(tier):
                 keep += rnd.sample([b for b in base if b["kind"] == k], 100)
         base = keep
     out += base
+    serial = vf.tlc_scenarios(PID, "Scen_Submitter", "Scen_Submitter_serial.cfg", exhaustive=True, name="scen-serial")
+    if tier == "quick":
+        serial = [b for b in serial if b["kind"] in FULL_IN_QUICK] + rnd.sample(
+            [b for b in serial if b["kind"] not in FULL_IN_QUICK], 96)
+    out += serial
     out += vf.tlc_scenarios(PID, "Scen_Submitter", "Scen_Submitter_classify.cfg", exhaustive=True, name="scen-classify")
     out += vf.tlc_scenarios(PID, "Scen_Submitter", "Scen_Submitter_imm.cfg", exhaustive=True, name="scen-imm")
     n = 160 if tier == "quick" else 4000
@@ -90,7 +95,8 @@ def run(tier):
     sc = scenarios(tier)
     vf.conformance(v, sc, driver, "Trace_Submitter", "Trace_Submitter.cfg", sig_of, nontrivial, tlc_timeout=1200)
     v.coverage["rule"] = ("multinode: every assignment of the 7 outcomes to 3 nodes (TLC-enumerated) for attestations and sync "
-                          "messages (all 8 kinds in thorough, a seeded sample of the others in quick) the whole classifier table "
+                          "messages (all 8 kinds in thorough, a seeded sample of the others in quick), every assignment of the 4 "
+                          "prompt outcomes with concurrency 1 < 3 nodes, the whole classifier table "
                           "(one node, every client x reply shape per kind), plus TLC-simulated "
                           "submissions (any client x reply shape, 1-4 nodes, concurrency 1-8, payload 1-13); immediate: every "
                           "kind x outcome; util.Scatter: items x concurrency 0..64, one trace line each; non-trivial = at least "
